@@ -48,7 +48,11 @@ func genFlags(rng *core.Rand, authPct int) string {
 		fl = "d"
 	}
 	if rng.Chance(authPct, 100) {
-		fl += rng.Pick([]string{"c", "C", "k", "a", "i"})
+		if rng.Chance(1, 8) {
+			fl += "i"
+		} else {
+			fl += string(authShapes[rng.Intn(len(authShapes))])
+		}
 	}
 	if fl == "" {
 		fl = "-"
@@ -386,16 +390,17 @@ func (p *prop) genE2E(rng *core.Rand) string {
 	default:
 		host = hostVariant(rng, sni, "secret.test")
 	}
-	hs, _ := p.handshake(sni)
+	k := rng.Intn(nE2ESrv)
+	hs, _ := p.handshake(k, sni)
 	if hs != "f" && hs != "p0" && hs != "p1" {
 		hs = "f" // Run prints what it observes; the disagreement is then visible
 	}
-	return fmt.Sprintf("e2e %s %s %s", hs, core.Hex(sni), core.Hex(host))
+	return fmt.Sprintf("e2e %d %s %s %s", k, hs, core.Hex(sni), core.Hex(host))
 }
 
 var malformed = []string{
-	"e2e", "e2e f 2d 2d", "e2e p1 7075626c69632e74657374", "e2e p2 7075626c69632e74657374 2d", "e2e p1 3132372e302e302e31 2d", "e2e p1 612e 2d",
-	"e2e p1 c3a9 2d", "e2e f zz 2d", "e2e f 7075626c69632e74657374 2d x",
+	"e2e", "e2e 0 f 2d 2d", "e2e 0 p1 7075626c69632e74657374", "e2e 1 p2 7075626c69632e74657374 2d", "e2e 0 p1 3132372e302e302e31 2d", "e2e 2 p1 612e 2d",
+	"e2e 1 p1 c3a9 2d", "e2e 0 f zz 2d", "e2e 0 f 7075626c69632e74657374 2d x", "e2e 3 f 7075626c69632e74657374 2d", "e2e f 7075626c69632e74657374 2d", "e2e 00 f 7075626c69632e74657374 2d",
 	"", "pol", "enf", "xyz 1 2 3", "pol 0 . .", "pol 2 . 2d/0/6/0000000000000000", "pol 0 -/~/~", "pol 0 -/~ 2d/0/6/0000000000000000",
 	"pol 0 x/~/~ 2d/0/6/0000000000000000", "pol 0 dd/~/~ 2d/0/6/0000000000000000", "pol 0 -/zz/~ 2d/0/6/0000000000000000",
 	"pol 0 -/7b/~ 2d/0/6/0000000000000000", "pol 0 -/c3a9/~ 2d/0/6/0000000000000000", "pol 0 -/~/ba 2d/0/6/0000000000000000",
@@ -463,7 +468,7 @@ func (p *prop) Generate(rng *core.Rand, tier string, emit func(string)) {
 		emit("pol 0 . 2d/0/6/0000000000000000") // Run reports the setup failure
 		return
 	}
-	nPol, nEnf, nBad, nE2E := 8000, 12000, 800, 600
+	nPol, nEnf, nBad, nE2E := 6000, 10000, 800, 600
 	switch tier {
 	case "thorough":
 		nPol, nEnf, nBad, nE2E = 60000, 100000, 5000, 6000
